@@ -250,13 +250,20 @@ def renc_fields(fs, accessor):
     return out
 
 
+def ok_fields(fs, accessor):
+    return " && ".join(["true"] + ["%s.ok()" % accessor(f) for f in fs if not is_removed(f.ty)])
+
+
 def renc_impl(t):
     L = ["impl RefEnc for %s {" % t.name, "    fn renc(&self, v: u32, out: &mut Vec<u8>) {"]
     if t.kind == "struct":
         for s in renc_fields(t.fields, lambda f: "self.%s" % f.name):
             L.append("        " + s)
+        L.append("    }")
+        L.append("    fn ok(&self) -> bool { %s }" % ok_fields(t.fields, lambda f: "self.%s" % f.name))
     else:
         L.append("        match self {")
+        oks = []
         for idx, (vn, fs, disc, tup, vfrom) in enumerate(t.variants):
             if not fs:
                 pat = "%s::%s" % (t.name, vn)
@@ -267,8 +274,15 @@ def renc_impl(t):
             body = ["out.extend_from_slice(&(%du%d).to_le_bytes());" % (idx, t.width * 8)]
             body += renc_fields(fs, lambda f: "f%s" % f.name)
             L.append("            %s => { %s }" % (pat, " ".join(body)))
+            oks.append("            %s => { %s }" % (pat, ok_fields(fs, lambda f: "f%s" % f.name)))
         L.append("        }")
-    L += ["    }", "}"]
+        L.append("    }")
+        L.append("    fn ok(&self) -> bool {")
+        L.append("        match self {")
+        L += oks
+        L.append("        }")
+        L.append("    }")
+    L += ["}"]
     return "\n".join(L)
 
 
@@ -473,8 +487,12 @@ def main():
         der = "derive(Savefile) output for %s" % n
         reg.append('    h(file_%s, 64, crate::containers::file_noschema::<%s, _>, "complete", "C01,C02", "Serializer::save_impl; Deserializer::load_impl; savefile::save_noschema; savefile::load_noschema; %s", "");' % (n, T, der))
         reg.append('    h(trunc_%s, 64, crate::containers::truncate_noschema::<%s, _>, "complete", "C07", "Deserializer::load_impl; Deserializer::read_*; %s Deserialize", "");' % (n, T, der))
-        reg.append('    h(fault_%s, 64, crate::containers::fault_write::<%s, _>, "complete", "C08", "Serializer::save_impl; Serializer::write_*; From<io::Error> for SavefileError; %s Serialize", "");' % (n, T, der))
-        reg.append('    h(chunk_%s, 64, crate::containers::chunk_read::<%s, _>, "complete", "C08", "Deserializer::load_impl; Deserializer::read_*; %s Deserialize", "");' % (n, T, der))
+        reg.append('    h(shortw_%s, 96, crate::containers::short_write::<%s, _, 1>, "complete", "C08", "Serializer::save_impl; Serializer::write_*; %s Serialize", "writer accepts 1 byte per call (all values)");' % (n, T, der))
+        reg.append('    h(chunk1_%s, 96, crate::containers::chunked_read::<%s, _, 1>, "complete", "C08", "Deserializer::load_impl; Deserializer::read_*; %s Deserialize", "reader delivers 1 byte per call (all values)");' % (n, T, der))
+        reg.append('    h(chunk3_%s, 96, crate::containers::chunked_read::<%s, _, 3>, "complete", "C08", "Deserializer::load_impl; Deserializer::read_*; %s Deserialize", "reader delivers 3 bytes per call (all values)");' % (n, T, der))
+        if n in ("SPlain", "EData"):
+            for at in (0, 9, 16, 17):
+                reg.append('    h(failw%d_%s, 96, crate::containers::fail_write::<%s, _, %d>, "bounded", "C08", "Serializer::save_impl; Serializer::write_*; From<io::Error> for SavefileError; %s Serialize", "hard write failure at byte offset %d (one offset per instance; all offsets are covered by the Verus Err-clauses)");' % (at, n, T, at, der, at))
         reg.append('    h(schema_%s, 64, crate::schemaread::schema_faithful::<%s, _>, "complete", "C12", "%s WithSchema::schema; savefile::get_schema; Serialize", "");' % (n, T, der))
         m = max_size(n, types)
         if m is not None:
